@@ -459,3 +459,159 @@ def _re_test(anchored):
 
 R.ext["re.search"] = _re_test(False)
 R.ext["re.match"] = _re_test(True)
+
+
+# ---------------------------------------------------------------- E-strws (str whitespace methods)
+lstrip_f = uf("py_lstrip", S, S)
+lws_f = uf("py_lws", S, S)          # the leading whitespace removed by lstrip()
+rstrip_f = uf("py_rstrip", S, S)
+rws_f = uf("py_rws", S, S)
+split_f = uf("py_split_ws", S, z3.SeqSort(S))
+lower_f = uf("py_lower", S, S)
+WS = z3.Union(*[z3.Re(zstr(c)) for c in " \t\n\r\x0b\x0c"])   # ASCII whitespace (unicode spaces: not modelled)
+
+
+@R.axiom
+def e_strws(eng):
+    s = z3.Const("ws.s", S)
+    return [
+        Schema("E-strws.lstrip", [s], z3.And(
+            s == z3.Concat(lws_f(s), lstrip_f(s)), z3.InRe(lws_f(s), z3.Star(WS)),
+            z3.Not(z3.InRe(z3.SubString(lstrip_f(s), 0, 1), WS))), triggers=[[lstrip_f(s)]], origin="assumed"),
+        Schema("E-strws.rstrip", [s], z3.And(
+            s == z3.Concat(rstrip_f(s), rws_f(s)), z3.InRe(rws_f(s), z3.Star(WS)),
+            z3.Not(z3.InRe(z3.SubString(rstrip_f(s), z3.Length(rstrip_f(s)) - 1, 1), WS))),
+            triggers=[[rstrip_f(s)]], origin="assumed"),
+        Schema("E-strws.lower", [s], z3.Length(lower_f(s)) == z3.Length(s), triggers=[[lower_f(s)]], origin="assumed"),
+    ]
+
+
+def _ws_method(fn):
+    def h(eng, args, kw, node):
+        if len(args) != 1:
+            raise Unsupported("strip/split with arguments")
+        eng.used_assumptions.add("E-strws")
+        return P(STR, fn(eng.term(args[0], STR)))
+    return h
+
+
+R.ext["str.lstrip"] = _ws_method(lstrip_f)
+R.ext["str.rstrip"] = _ws_method(rstrip_f)
+R.ext["str.lower"] = _ws_method(lower_f)
+
+
+@R.external("str.split")
+def ext_split(eng, args, kw, node):
+    eng.used_assumptions.add("E-strws")
+    s = eng.term(args[0], STR)
+    if len(args) == 1:
+        return lib.alloc(eng, Ty("list", STR), P(SeqT(STR), split_f(s)), "cell.split")
+    sep = args[1]
+    if not isinstance(sep, Conc) or len(sep.v) != 1:
+        raise Unsupported("split with a symbolic or multi-character separator")
+    f = uf("py_split_" + str(ord(sep.v)), S, z3.SeqSort(S))
+    r = f(s)
+    # len(parts) == count(sep) + 1 >= 1 ; three separators in the text give at least four parts
+    eng.st.pc.append(z3.Length(r) >= 1)
+    three = z3.Concat(rx_all(), z3.Re(zstr(sep.v)), rx_all(), z3.Re(zstr(sep.v)), rx_all(), z3.Re(zstr(sep.v)), rx_all())
+    eng.st.pc.append(z3.Implies(z3.InRe(s, three), z3.Length(r) >= 4))
+    return lib.alloc(eng, Ty("list", STR), P(SeqT(STR), r), "cell.split")
+
+
+def rx_all():
+    from pyvc import regex as rx
+    return rx.ALL
+
+
+@R.external("str.join")
+def ext_join(eng, args, kw, node):
+    sep, it = args
+    eng.used_assumptions.add("E-strws")
+    sq = lib.seq_of(eng, it)
+    if sq is None:
+        try:
+            items = lib.iter_concrete(eng, it)
+        except Unsupported:
+            items = None
+        if items is not None:
+            acc = None
+            for x in items:
+                acc = x if acc is None else lib.binop_add(eng, lib.binop_add(eng, acc, sep, node), x, node)
+            return acc if acc is not None else Conc("")
+        raise Unsupported("join over %r" % (it,))
+    if not isinstance(sep, Conc):
+        raise Unsupported("join with symbolic separator")
+    f = uf("py_join_" + "_".join(str(ord(c)) for c in sep.v), z3.SeqSort(S), S)
+    return P(STR, f(sq.term))
+
+
+# ---------------------------------------------------------------- E-b2a_hex / E-passlib
+hexenc = uf("hexenc", S, S)
+
+
+@R.external("binascii.b2a_hex")
+def ext_b2a_hex(eng, args, kw, node):
+    eng.used_assumptions.add("E-b2a_hex")
+    x = eng.term(args[0], STR)
+    r = hexenc(x)
+    eng.st.pc.append(z3.Length(r) == 2 * z3.Length(x))
+    eng.st.pc.append(z3.InRe(r, z3.Star(HEXL)))
+    return P(STR, r)
+
+
+def _hasher(kind):
+    def using(eng, args, kw, node):
+        eng.used_assumptions.add("E-passlib")
+        return Special("hasher", kind=kind, salt=kw.get("salt"), rounds=kw.get("rounds"))
+    return using
+
+
+for _k in ("cisco_type7", "md5_crypt", "sha512_crypt"):
+    R.ext["passlib.hash.%s.using" % _k] = _hasher(_k)
+
+
+LATIN1 = z3.Star(z3.Range(zstr(chr(0)), zstr(chr(255))))
+
+
+def _ascii(eng, term):
+    """passlib hash strings are ASCII (part of E-passlib)"""
+    eng.st.pc.append(z3.InRe(term, LATIN1))
+    return P(STR, term)
+
+
+@R.external("meth.hasher.hash")
+def ext_hash(eng, args, kw, node):
+    h, secret = args[0], args[1]
+    x = eng.term(secret, STR)
+    if h.kind == "cisco_type7":
+        salt = eng.term(h.salt, INT)
+        eng.safety("passlib.cisco_type7[salt in 0..52]", z3.And(salt >= 0, salt <= 52), node)
+        return _ascii(eng, uf("type7_hash", I, S, S)(salt, x))
+    if h.kind == "md5_crypt":
+        salt = eng.term(h.salt, STR)
+        ok = z3.Length(salt) <= 8
+        if eng.may_catch("ValueError"):
+            if not eng.decide(ok):
+                raise RaiseSig("ValueError")
+        else:
+            eng.safety("passlib.md5_crypt[salt length <= 8]", ok, node)
+        return _ascii(eng, uf("md5crypt_hash", S, S, S)(salt, x))
+    if h.kind == "sha512_crypt":
+        if h.salt is None:
+            # no salt given: passlib draws a random 16-character salt
+            nd = z3.Const(eng.fresh_name("nondet.sha512_salt"), S)
+            eng.nondet.append(("sha512_crypt random salt", nd))
+            return _ascii(eng, uf("sha512crypt_hash", S, S, S)(nd, x))
+        salt = eng.term(h.salt, STR)
+        eng.safety("passlib.sha512_crypt[salt length <= 16]", z3.Length(salt) <= 16, node)
+        return _ascii(eng, uf("sha512crypt_hash", S, S, S)(salt, x))
+    raise Unsupported("hasher %s" % h.kind)
+
+
+@R.axiom
+def e_strrepeat(eng):
+    c = z3.Const("sr.c", S)
+    n = z3.Int("sr.n")
+    f = uf("str_repeat", S, I, S)
+    return [Schema("E-strrepeat.len", [c, n], z3.Length(f(c, n)) == z3.If(n < 0, 0, n * z3.Length(c)),
+                   triggers=[[f(c, n)]], origin="assumed")]
